@@ -17,6 +17,9 @@ Next == Len(s) < L /\ \E c \in Alphabet : s' = Append(s, c)
 GrammarVsAlgo == /\ IsNumeral(s) <=> AlgoAccept(s)
                  /\ (IsNumeral(s) => ParseValue(s) = AlgoValue(s))
 
+\* C17: every JSON number is (syntactically) a numeral with the same meaning - the serde adapters can hand it to the parser
+JsonSubset == IsJsonNumber(s) => Syntactic(s) /\ ~(\E i \in 1..Len(s) : s[i] = cUnd)
+
 \* Every numeral is printed as a behaviour: the harness parses it through the four entry points and the
 \* recorded outcomes are validated against ParseValue (numeral => accepted with the denoted value).
 \* The converse (accepted => numeral, no panic) is decided on the trace of ALL accepted or panicking
